@@ -47,6 +47,7 @@ class Obligation:
 	expect: str = 'proved'  # proved | refuted (canary) | sat (cover)
 	inputs: dict[str, Ty] = field(default_factory=dict)
 	inst: dict[str, Any] = field(default_factory=dict)
+	axioms: list[tuple[str, Any]] = field(default_factory=list)  # (external, axiom) known when the obligation was generated; only the relevant ones go into the query
 
 
 class Oracle:
@@ -166,7 +167,7 @@ class Engine:
 			pass
 		n = len(self.obligations)
 		name = f'{fn.prop}/{fn.label}/{kind}#{n}'
-		self.obligations.append(Obligation(name, kind, fn.prop, fn.label, list(st.pc) + list(self.used_axioms), goal, list(fn.want), line, clause, expect, dict(fn.inputs), dict(fn.inst)))
+		self.obligations.append(Obligation(name, kind, fn.prop, fn.label, list(st.pc), goal, list(fn.want), line, clause, expect, dict(fn.inputs), dict(fn.inst), list(self.used_axioms)))
 
 	# ------------------------------------------------------------------ externals
 	def ext_func(self, name: str):
@@ -197,7 +198,7 @@ class Engine:
 					qs.append(c)
 			ev = Ev(self, fnctx, st, Oracle([]), mode='spec')
 			t = ev.truth(ast.parse(ax, mode='eval').body)
-			self.used_axioms.append(z3.ForAll(qs, t) if qs else t)
+			self.used_axioms.append((name, z3.ForAll(qs, t) if qs else t))
 
 
 def _root_name(n: ast.expr) -> str | None:
@@ -323,6 +324,21 @@ class Ev:
 		return py_to_val(v, ty)
 
 	def truth(self, node: ast.expr) -> Any:
+		c = self.fn.contract
+		if isinstance(node, ast.BoolOp) and not (c is not None and c.rewrites and self.rw and ast.unparse(node) in c.rewrites):
+			# in a test position only the truth values matter (operands of different types need no common type)
+			saved = list(self.guards)
+			ts = []
+			try:
+				for e in node.values:
+					t = self.truth(e)
+					ts.append(t)
+					self.guards.append(t if isinstance(node.op, ast.And) else z3.Not(t))
+			finally:
+				self.guards[:] = saved
+			return z3.And(*ts) if isinstance(node.op, ast.And) else z3.Or(*ts)
+		if isinstance(node, ast.UnaryOp) and isinstance(node.op, ast.Not):
+			return z3.Not(self.truth(node.operand))
 		return self.truthy(self.eval(node))
 
 	def truthy(self, v: Val) -> Any:
@@ -703,11 +719,25 @@ class Ev:
 		if z3.is_false(simp(c)):
 			return self.eval(n.orelse)
 		saved = list(self.guards)
+		# `x if x is not None else d` / `d if x is None else x`: the branch that uses x sees it as the inner type
+		tst = n.test
+		opt_name, some_branch = None, None
+		if isinstance(tst, ast.Compare) and len(tst.ops) == 1 and isinstance(tst.left, ast.Name) and isinstance(tst.comparators[0], ast.Constant) and tst.comparators[0].value is None:
+			if isinstance(tst.ops[0], ast.IsNot):
+				opt_name, some_branch = tst.left.id, 'body'
+			elif isinstance(tst.ops[0], ast.Is):
+				opt_name, some_branch = tst.left.id, 'orelse'
+
+		def branch(which: str, node: ast.expr) -> Val:
+			v = self.eval(node)
+			if which == some_branch and isinstance(node, ast.Name) and node.id == opt_name and isinstance(v.ty, TOpt):
+				return self.unwrap(v)
+			return v
 		try:
 			self.guards.append(c)
-			a = self.eval(n.body)
+			a = branch('body', n.body)
 			self.guards[:] = saved + [z3.Not(c)]
-			b = self.eval(n.orelse)
+			b = branch('orelse', n.orelse)
 		finally:
 			self.guards[:] = saved
 		a, b = self.unify(a, b)
@@ -895,6 +925,10 @@ class Ev:
 
 	def contains(self, container: Val, x: Val) -> Any:
 		container, x = self.narrow(container), self.narrow(x)
+		if isinstance(container.ty, TOpt):
+			if self.mode != 'spec':
+				self.exit_if(container.ty.is_none(container.term), 'TypeError')  # `x in None`
+			container = self.unwrap(container)
 		t = container.ty
 		if container.is_conc() and x.is_conc():
 			return z3.BoolVal(x.conc in container.conc)
@@ -1077,7 +1111,12 @@ class Ev:
 		vals: list[tuple[bool, Val]] = []
 		for e in elts:
 			if isinstance(e, ast.Starred):
-				vals.append((True, self.eval(e.value)))
+				sv = self.eval(e.value)
+				if isinstance(sv.ty, TOpt):
+					if self.mode != 'spec':
+						self.exit_if(sv.ty.is_none(sv.term), 'TypeError')  # `[*None]`
+					sv = self.unwrap(sv)
+				vals.append((True, sv))
 			else:
 				vals.append((False, self.eval(e)))
 		for star, v in vals:
